@@ -685,6 +685,13 @@ class Fn:
                     raise Unsupported("is None on a non-optional")
                 return f"(is_none {t})" if isinstance(op, ast.Is) else f"(is_some {t})"
             raise Unsupported("is / is not")
+        if isinstance(op, (ast.In, ast.NotIn)) and isinstance(r, (ast.List, ast.Tuple, ast.Set)) and r.elts and all(isinstance(x, ast.Constant) and isinstance(x.value, str) for x in r.elts):
+            a, ta = self.expr(l, env, hoist, pure)
+            strings = self.iface.get("strings", {})
+            if ta == "Gtype" and all(x.value in strings for x in r.elts):
+                txt = f"(type_in {a} [{'; '.join(strings[x.value] for x in r.elts)}])"
+                return txt if isinstance(op, ast.In) else f"(negb {txt})"
+            raise Unsupported("membership in a display of strings")
         a, ta = self.expr(l, env, hoist, pure)
         b, tb = self.expr(r, env, hoist, pure)
         if isinstance(op, (ast.In, ast.NotIn)) and isinstance(tb, tuple) and tb[0] == "D" and ta == tb[1] == Z:
@@ -728,6 +735,13 @@ class Fn:
             a, b, ty = self.unify_num(a, ta, b, tb)
             a, b = self.coerce(a, ty, Q), self.coerce(b, ty, Q)
             return f"(py{fname} {a} {b})", Q
+        if fname == "int" and len(e.args) == 1 and not e.keywords:
+            a, ta = self.expr(e.args[0], env, hoist, pure)
+            if ta == LIT:
+                a, ta = qlit(a), Q
+            if ta == Z:
+                return a, Z
+            return f"(py_int {self.coerce(a, ta, Q)})", Z
         if fname == "float" and len(e.args) == 1 and not e.keywords:
             a, ta = self.expr(e.args[0], env, hoist, pure)
             if ta == LIT:
@@ -1840,6 +1854,13 @@ def generate(src_root: Path) -> tuple[str, dict]:
          {"attrs": {"self.tasks": "L(R{clip.uuid:Z})", "self.clip_annotations": "L(R{clip.uuid:Z;uuid:Z})"}, "consts": {"self": ("tt", "U")}, "ret": "U"})
     unit("Clip__validate_times", "data/clips.py", "Clip._validate_times",
          {"attrs": {"values.start_time": "Q", "values.end_time": "Q"}, "consts": {"values": ("tt", "U")}, "ret": "U"})
+
+    # ---- C10: the numeric helpers of the crowsetta export
+    unit("convert_geometry_to_bbox", "io/crowsetta/bbox.py", "convert_geometry_to_bbox",
+         {"params": {"geometry": "G", "cast_to_bbox": "B", "raise_on_time_geometries": "B"}, "strings": TYPE_STRINGS, "ret": "T(Q,Q,Q,Q)",
+          "calls": {"compute_bounds": BOUNDS_CALL}})
+    unit("convert_time_to_sample", "io/crowsetta/segment.py", "convert_time_to_sample",
+         {"params": {"time": "Q"}, "attrs": {"recording.samplerate": "Q"}, "ret": "Z"})
 
     # ---- C07: the loop of match_geometries that turns the selected pairs into the reported triples (what precedes it — the
     # affinity matrix, scipy's assignment and the leftover rows / columns — enters as the parameters cost_matrix and matches)
